@@ -51,7 +51,11 @@ def boom(kind, token):
         e = SystemExit(token)
     elif kind == "GeneratorExit":
         e = GeneratorExit(token)
-    else:
+    elif kind == "BoomBase":
         e = BoomBase(token)
+    else:
+        # any built-in exception class, by name (KeyError, StopIteration, FileNotFoundError, ...)
+        import builtins
+        e = getattr(builtins, kind)(token)
     RAISED.append(e)
     raise e
